@@ -217,6 +217,7 @@ const (
 	c18Idle     = 3 * time.Minute
 	c18Guard    = time.Minute
 	c18TokenMin = 60
+	c18MaxAge   = 40 * time.Minute
 )
 
 func c18Body(r *simcore.Run) {
@@ -235,7 +236,7 @@ func c18Body(r *simcore.Run) {
 	dir := r.Dir("srv-0")
 	lis := bufconn.Listen(1 << 20)
 	so := sessions.DefaultOptions().WithMaxSessionInactivityTime(c18Idle).WithSessionGuardCheckInterval(c18Guard).
-		WithMaxSessionAgeTime(24 * time.Hour).WithTimeout(2 * time.Minute)
+		WithMaxSessionAgeTime(c18MaxAge).WithTimeout(2 * time.Minute)
 	opts := server.DefaultOptions().WithDir(dir).WithAuth(true).WithListener(lis).WithAdminPassword("immudb").
 		WithMetricsServer(false).WithWebServer(false).WithPgsqlServer(false).WithSessionOptions(so).
 		WithTokenExpiryTime(c18TokenMin).WithPidfile("").WithLogfile("")
@@ -272,7 +273,7 @@ func c18Body(r *simcore.Run) {
 		kind := []string{"session", "token"}[r.Intn(2)]
 		states := []string{"valid", "valid", "valid", "none", "garbage", "closed", "deactivated", "revoked", "regranted"}
 		if kind == "session" {
-			states = append(states, "idle-expired")
+			states = append(states, "idle-expired", "age-expired")
 		} else {
 			states = append(states, "token-expired")
 		}
@@ -615,8 +616,14 @@ func (e *c18Env) cell(u c18User, sel, kind, state string) string {
 		if md == nil {
 			// token credentials; a database the user may not use stays unselected
 			kind = "token"
-			if state == "idle-expired" {
-				state = "token-expired" // tokens do not expire by inactivity
+			if state == "idle-expired" || state == "age-expired" {
+				state = "token-expired" // tokens expire neither by inactivity nor by session age
+			}
+			if state == "closed" {
+				// Logout ends a token only together with the user's last outstanding
+				// login (token keys are per user, by design); "logged out" is not among
+				// the session states of the property, so it is not claimed for tokens
+				state = "valid"
 			}
 			resp := &schema.LoginResponse{}
 			ctx, cancel := context.WithTimeout(context.Background(), 20*time.Second)
@@ -659,6 +666,15 @@ func (e *c18Env) cell(u c18User, sel, kind, state string) string {
 	case "idle-expired":
 		time.Sleep(c18Idle + 2*c18Guard + time.Second)
 		r.Fault("session-idle-expiry")
+		e.adminSessions()
+		amd = sidMD(e.admin["defaultdb"])
+	case "age-expired":
+		// kept alive every two minutes until the session is older than the maximum age
+		for t := time.Duration(0); t < c18MaxAge+2*c18Guard; t += 2 * time.Minute {
+			time.Sleep(2 * time.Minute)
+			e.call(e.find("schema/KeepAlive"), md, nil)
+		}
+		r.Fault("session-age-expiry")
 		e.adminSessions()
 		amd = sidMD(e.admin["defaultdb"])
 	case "token-expired":
@@ -786,8 +802,9 @@ func (e *c18Env) cell(u c18User, sel, kind, state string) string {
 			}
 			continue
 		}
-		if served && c18Late[m.key] > 0 && m.key != "schema/UseDatabase" {
-			// the caller ended its own credentials: everything after it must be refused
+		if served && c18Late[m.key] > 0 && m.key != "schema/UseDatabase" && kind == "session" {
+			// the caller closed its own session: everything after it must be refused
+			// (a token survives Logout while the user has another login outstanding)
 			state = "closed"
 		}
 		if served && m.key == "schema/UseDatabase" {
